@@ -6,7 +6,7 @@
 From Coq Require Import List NArith.
 From RaftLog Require Import Base.Bytes Model.Types Model.Cache Model.Core Model.Recover Model.Run Model.Sys.
 From RaftLog Require Import Spec.Durable Proofs.NoPanic Proofs.CrashSteps Proofs.CrashRecover.
-From RaftLog Require Proofs.CodecFacts Proofs.ScanFacts Proofs.RestartSys Proofs.RestartCrash Proofs.RestartCrashImg Proofs.RestartChain Proofs.RestartCrashIter Proofs.RestartCrashErase.
+From RaftLog Require Proofs.CodecFacts Proofs.ScanFacts Proofs.RestartSys Proofs.RestartCrash Proofs.RestartCrashImg Proofs.RestartChain Proofs.RestartCrashIter Proofs.RestartCrashErase Proofs.RestartCrashErase2.
 Import ListNotations.
 
 (* Finding F3: a vote that fills the chunk (chunk_max_records = 2) rotates; right after the
@@ -109,6 +109,21 @@ Theorem C05_recovers_outside_known_from_any_marks : forall cfg cfg' d z d',
              (forall ops res fin, run_ops y' ops = (res, fin) -> ~ In ResPanic res).
 Proof. exact RestartCrashErase.C05_recovers_outside_known_from_any_marks. Qed.
 
+(* ... and the pair (sorted, chained) is preserved by "run, crash outside the gap class", so
+   crash -> reopen -> crash iterates with no reboot step and no assumption on synced marks *)
+Theorem C05_crash_image_chained_any : forall cfg d z d',
+  disk_sorted d -> RestartCrash.dir_chained d -> RestartSys.zreach_from cfg d z -> hist_wf z ->
+  crash_image z d' -> ~ gap_class d' -> disk_sorted d' /\ RestartCrash.dir_chained d'.
+Proof. exact RestartCrashErase2.crash_image_chained_any. Qed.
+
+Theorem C05_recovers_again_any : forall cfg cfg' cfg'' d z1 d1 z2 d2,
+  disk_sorted d -> RestartCrash.dir_chained d -> RestartSys.zreach_from cfg d z1 -> hist_wf z1 ->
+  crash_image z1 d1 -> ~ gap_class d1 -> RestartSys.zreach_from cfg' d1 z2 -> hist_wf z2 ->
+  crash_image z2 d2 -> ~ gap_class d2 -> c_truncate cfg'' = true ->
+  exists y, open_dir cfg'' d2 = OpenOk y /\ sys_ok y /\
+            (forall ops res fin, run_ops y ops = (res, fin) -> ~ In ResPanic res).
+Proof. exact RestartCrashErase2.C05_recovers_again_any. Qed.
+
 Print Assumptions C05_refuted_gap.
 Print Assumptions C05_recovers_outside_known.
 Print Assumptions C05_recovers_outside_known_from.
@@ -116,3 +131,4 @@ Print Assumptions C05_from_nonvacuous.
 Print Assumptions C05_reboot_next_instance.
 Print Assumptions C05_recovers_again.
 Print Assumptions C05_recovers_outside_known_from_any_marks.
+Print Assumptions C05_recovers_again_any.
